@@ -7,7 +7,7 @@ import fstree
 import gen
 
 RULE = ("random trees (<= 40 entries quick / <= 400 thorough, depth <= 6; regular files, empty directories, symlinks to "
-        "file/dir/dangling, FIFOs, UNIX sockets, dot-files, adversarial names) x roots (., relative, absolute, 1-3 "
+        "file/dir/dangling, FIFOs, UNIX sockets, dot-files, adversarial names, directory names with backslashes) x roots (., relative, absolute, 1-3 "
         "disjoint roots) x mindepth/maxdepth in 0..depth+2 x {bfs, dfs}; thorough adds every tree shape with <= 6 nodes. "
         "(a) `path ... into list` vs the Lean model: exact sequence (the snapshot carries the readdir order), "
         "(b) oracle: os.walk(followlinks=False) gives the expected multiset for the window; bfs: no entry precedes one "
@@ -123,8 +123,16 @@ def run(ctx):
             r = ctx.rng.fork()
             ents = fstree.gen_tree(r, max_entries=r.choice([5, 15, 40] if quick else [5, 40, 150, 400]), max_depth=r.choice([2, 4, 6]),
                                    kinds="fdlps", adversarial=r.chance(1, 3))
+            if r.chance(1, 2):
+                # a backslash is an ordinary character of a name here: it must not count as a level
+                have = {e["path"] for e in ents}
+                if "b\\s" not in have:
+                    for pth, kind in [("b\\s", "d"), ("b\\s/in\\ner\\x", "d"), ("b\\s/in\\ner\\x/leaf.txt", "f"), ("b\\s/in\\ner\\x/deep", "d"),
+                                      ("b\\s/in\\ner\\x/deep/f\\1", "f"), ("b\\s/top.txt", "f")]:
+                        ents.append({"path": pth, "kind": kind, "mode": 0o755 if kind == "d" else 0o644, "mtime": 1700000000,
+                                     **({"size": 1} if kind == "f" else {})})
             snap = corr.Snap(scratch, ents, subdir="t%d" % t, content_facts=False)
-            dirs = [n["rel"] for n in snap.nodes if n["kind"] == "d"]
+            dirs = [n["rel"] for n in snap.nodes if n["kind"] == "d" and "\\" not in n["rel"]]
             maxlevel = max([n["depth"] for n in snap.nodes] + [1])
             for _ in range(per_tree):
                 k = r.below(10)
